@@ -120,6 +120,35 @@ fn do_parse(src: &str) -> String {
     o
 }
 
+/// parse and report only the round-trip facts (for very long inputs the tree dump of `parse` is too large)
+fn do_roundtrip(src: &str) -> String {
+    use syntax::rowan::WalkEvent;
+    let p = syntax::parse_module(src);
+    let _ = p.root();
+    let node = p.syntax_node();
+    let mut pos: u32 = 0;
+    let mut contiguous = true;
+    let mut tokens = 0usize;
+    for ev in node.preorder_with_tokens() {
+        if let WalkEvent::Enter(NodeOrToken::Token(t)) = ev {
+            let r = t.text_range();
+            if u32::from(r.start()) != pos || r.is_empty() {
+                contiguous = false;
+            }
+            pos = u32::from(r.end());
+            tokens += 1;
+        }
+    }
+    if pos as usize != src.len() {
+        contiguous = false;
+    }
+    let text_ok = node.text().to_string() == src;
+    let o = format!("{{\"text_ok\":{},\"contiguous\":{},\"tokens\":{},\"errors\":{}}}", text_ok, contiguous, tokens, p.errors().len());
+    std::mem::forget(node);
+    std::mem::forget(p);
+    o
+}
+
 fn main() {
     panic::set_hook(Box::new(|_| {}));
     let stdin = std::io::stdin();
@@ -142,6 +171,7 @@ fn main() {
         let res = panic::catch_unwind(|| match cmd.as_str() {
             "lex" => do_lex(&src),
             "parse" => do_parse(&src),
+            "roundtrip" => do_roundtrip(&src),
             _ => String::from("{\"error\":\"unknown command\"}"),
         });
         let out = match res {
